@@ -74,6 +74,53 @@ def all_queries(ctx, gd):
             query(ctx, g, gd, a, b, list(C), gkey)
 
 
+def oracle_selfcheck(ctx, rng):
+    import itertools as it
+    from fractions import Fraction
+
+    from ..scm import ModelTooLarge, model_for_graph
+
+    n_sep = n_con = n_nowit = 0
+    for _ in range(ctx.share({"quick": 160, "thorough": 4000}[ctx.tier])):
+        gd = gg.random_admg(rng, rng.randint(3, 5), hostile=rng.choice(["bichain", "bow", "none", "onedistrict"]))
+        ref = gg.to_rg(gd)
+        names = sorted(gd["nodes"])
+        a, b = rng.sample(names, 2)
+        rest = [x for x in names if x not in (a, b)]
+        C = sorted(rng.sample(rest, rng.randint(0, len(rest))))
+        from y0.dsl import Variable
+
+        sep = ref.m_separated(Variable(a), Variable(b), {Variable(c) for c in C})
+        dependent_somewhere = False
+        for k in range(3):
+            try:
+                m = model_for_graph(rng, gd, max_card=3, clique_latents=bool(k % 2))
+            except ModelTooLarge:
+                continue
+            indep = True
+            for vals in it.product(*[m.values(x) for x in [a, b] + C]):
+                env = dict(zip([a, b] + C, vals))
+                pc = m.p({c: env[c] for c in C}) if C else Fraction(1)
+                pabc = m.p(env)
+                pac = m.p({k2: env[k2] for k2 in [a] + C})
+                pbc = m.p({k2: env[k2] for k2 in [b] + C})
+                if pabc * pc != pac * pbc:
+                    indep = False
+                    break
+            if sep and not indep:
+                kernel.monitor_error("c04.oracle-selfcheck", RuntimeError(
+                    f"O3 says {a} and {b} are m-separated given {C} in {gd} but they are dependent in a compatible model"))
+                return
+            dependent_somewhere |= not indep
+        if sep:
+            n_sep += 1
+        else:
+            n_con += 1
+            n_nowit += not dependent_somewhere
+    ctx.extras["oracle_selfcheck"] = {"separations_confirmed_as_exact_independence": n_sep, "connections": n_con,
+                                      "connections_without_dependence_witness_in_3_models": n_nowit}
+
+
 def cf_graph_for(gd, ev):
     from y0.algorithm.identify.cg import extract_interventions, make_parallel_worlds_graph
 
@@ -159,6 +206,9 @@ def run_shard(ctx):
             if v1 != v2:
                 kernel.LOG.reset_case({"graph": gd, "graph2": gd2, "a": a, "b": b, "C": sorted(C)})
                 kernel.violation(PROP, "insertion-order", f"verdict {v1} vs {v2} for two insertion orders of one graph")
+    # the oracle itself is cross-checked against exact models: a separation O3 reports must be an exact conditional
+    # independence in every compatible model, a connection should show as a dependence in at least one of K models
+    oracle_selfcheck(ctx, rng)
     # edit histories: query a graph object, edit it in place, query the SAME object again
     for _ in range(ctx.share({"quick": 300, "thorough": 6000}[ctx.tier])):
         gd = gg.random_admg(rng, rng.randint(3, 6))
